@@ -1,6 +1,7 @@
 from __future__ import annotations
 
 import itertools
+import math
 import weakref
 
 import claripy
@@ -17,13 +18,21 @@ class ModelCache:
         self.replacements = {}
         self.constraint_only_replacements = {}
 
+    @staticmethod
+    def _value_key(v):
+        # 0.0 == -0.0 in Python, but they are two different values of a float variable
+        return (v, math.copysign(1.0, v)) if isinstance(v, float) else v
+
     def __hash__(self):
         if not hasattr(self, "_hash"):
-            self._hash = hash(frozenset(self.model.items()))  # pylint:disable=attribute-defined-outside-init
+            # pylint:disable=attribute-defined-outside-init
+            self._hash = hash(frozenset((k, self._value_key(v)) for k, v in self.model.items()))
         return self._hash
 
     def __eq__(self, other):
-        return self.model == other.model
+        return self.model.keys() == other.model.keys() and all(
+            self._value_key(v) == self._value_key(other.model[k]) for k, v in self.model.items()
+        )
 
     def __getstate__(self):
         return (self.model,)
